@@ -42,9 +42,10 @@ impl WorkerHandleAccept {
     /// the value the next `inc_counter()` on this handle returns.  It depends on the other thread (`Counter::inc`
     /// on the shared atomic, contract proved by Kani in unit server_counter), so it is an arbitrary but named value;
     /// naming it lets a postcondition say which way the caller branched on it.  (A function that called
-    /// `inc_counter` twice would see the same value twice: one call per verified function is assumed.)
+    /// `inc_counter` twice would see the same value twice — and count the connection twice: `//@once` refuses that.)
     pub uninterp spec fn inc_result(&self) -> bool;
 
+//@once inc_counter
     #[verifier::external_body]
     pub fn inc_counter(&self) -> (r: bool)
         ensures r == self.inc_result(),
